@@ -72,27 +72,72 @@ def _has_free_var(t, depth=0, memo=None):
     return r
 
 
-def _collect_lambda_args(t, out, flags, seen):
-    """closed lambdas occurring as arguments of function applications anywhere in t"""
-    tid = t.get_id()
-    if tid in seen:
+def _collect_lambda_args(t, out, flags, seen, under_fn=False):
+    """closed lambdas that occur inside an argument of an uninterpreted / recursive function application (at any depth,
+    except as the array operand of a select, where the solver's rewriter beta-reduces them).  Probed on z3 5.1
+    (tools/z3_lambda_probe.py): wrong 'unsat' answers arise only in that class; lambdas under ite / store / = outside
+    function arguments give at worst spurious 'sat', which model validation turns into 'undecided'."""
+    key = (t.get_id(), under_fn)
+    if key in seen:
         return
-    seen.add(tid)
+    seen.add(key)
     if z3.is_var(t):
         return
     if z3.is_quantifier(t):
-        _collect_lambda_args(t.body(), out, flags, seen)
+        _collect_lambda_args(t.body(), out, flags, seen, under_fn)
         return
     if z3.is_app(t):
-        if _fn_like(t.decl()) and t.num_args() > 0:
-            for c in t.children():
-                if z3.is_quantifier(c) and c.is_lambda():
-                    if _has_free_var(c):
-                        flags["open"] = True
-                    else:
-                        out[c.get_id()] = c
-        for c in t.children():
-            _collect_lambda_args(c, out, flags, seen)
+        is_select = t.decl().kind() == z3.Z3_OP_SELECT
+        is_fn = _fn_like(t.decl()) and t.num_args() > 0
+        for pos, c in enumerate(t.children()):
+            sub_under = under_fn or is_fn
+            if sub_under and z3.is_quantifier(c) and c.is_lambda() and not (is_select and pos == 0):
+                if _has_free_var(c):
+                    flags["open"] = True
+                else:
+                    out[c.get_id()] = c
+            _collect_lambda_args(c, out, flags, seen, sub_under)
+
+
+def _replace_fn_args(f, ids, pairs):
+    """replace the lambdas (by ast id) with their constants, but only where they occur inside function arguments:
+    occurrences in select position elsewhere stay beta-redexes, which are cheap for the solver"""
+    memo = {}
+
+    def rw(t, under):
+        key = (t.get_id(), under)
+        if key in memo:
+            return memo[key]
+        if z3.is_var(t):
+            r = t
+        elif z3.is_quantifier(t):
+            # below a binder: fall back to plain substitution (sound: it replaces more occurrences, never fewer)
+            _t, fd, _o = _scan(t)
+            r = z3.substitute(t, *pairs) if (under or any(i in ids for i in fd)) else t
+        elif z3.is_app(t) and t.num_args() > 0:
+            is_select = t.decl().kind() == z3.Z3_OP_SELECT
+            is_fn = _fn_like(t.decl())
+            ch, changed = [], False
+            for pos, c in enumerate(t.children()):
+                su = under or is_fn
+                if su and c.get_id() in ids and not (is_select and pos == 0):
+                    nc = ids[c.get_id()]
+                else:
+                    nc = rw(c, su)
+                changed = changed or (nc is not c)
+                ch.append(nc)
+            if changed:
+                try:
+                    r = t.decl()(*ch)
+                except Exception:
+                    r = z3.substitute(t, *pairs)
+            else:
+                r = t
+        else:
+            r = t
+        memo[key] = r
+        return r
+    return rw(f, False)
 
 
 _SCAN = {}      # ast id -> (term, {lambda id: lambda}, open?)   (the term is stored so that the id stays valid)
@@ -112,6 +157,8 @@ def _scan(f):
 def lift_lambdas(formulas):
     """-> (rewritten formulas, definitional axioms, risky)"""
     formulas = list(formulas)
+    if os.environ.get("PYVC_DIAG_NOLIFT") == "1":      # diagnosis only (timing comparison); never set by the checks
+        return formulas, [], False
     used = {}           # lambda sexpr -> (const, axiom, lambda)
     risky = False
     for _round in range(8):
@@ -143,8 +190,8 @@ def lift_lambdas(formulas):
             k = (f.get_id(), skey, extra_skip)
             r = _SUBST.get(k)
             if r is None:
-                ss = [(l, c) for l, c in subs if extra_skip is None or l.get_id() != extra_skip]
-                r = (f, z3.substitute(f, *ss) if ss else f)
+                ss = {l.get_id(): c for l, c in subs if extra_skip is None or l.get_id() != extra_skip}
+                r = (f, _replace_fn_args(f, ss, [(l, c) for l, c in subs if l.get_id() in ss]) if ss else f)
                 _SUBST[k] = r
             return r[1]
         formulas = [sub(f) for f in formulas]
@@ -249,15 +296,32 @@ def _discharge(ob, facts, goal, t0, timeout_ms, use_cvc5, both, small_terms, ris
         ob.verdict, ob.backend, ob.time = "proved", "simplify", time.time() - t0
         return ob
     if z3.is_false(z3.simplify(goal)):
-        # the path itself is the counterexample: it was found feasible when it was taken
-        s = _mk_solver(facts, ob.pc, goal, min(timeout_ms, 3000))
-        r = s.check()
+        # the goal is false on this path: a violation iff the path is feasible.  (Paths are pruned with a short solver
+        # budget, so a path that reaches this point may still be infeasible: 'unknown' is never a refutation.)
         ob.backend = "z3"
+        r = z3.unknown
+        for budget, tactic in ((min(timeout_ms, 3000), False), (timeout_ms, True), (3 * timeout_ms, False)):
+            if tactic:
+                try:
+                    s = z3.Then("simplify", "solve-eqs", "purify-arith", "smt").solver()
+                    s.set("timeout", budget)
+                    for f in list(facts) + list(ob.pc):
+                        s.add(f)
+                except z3.Z3Exception:
+                    continue
+            else:
+                s = _mk_solver(facts, ob.pc, goal, budget)
+            r = s.check()
+            if r != z3.unknown:
+                break
         if r == z3.unsat:
-            ob.verdict = "proved"       # infeasible path
-        else:
+            ob.verdict = "proved" if not risky else "undecided"      # infeasible path
+        elif r == z3.sat and model_validates(s.model(), facts, ob.pc, z3.BoolVal(False)):
             ob.verdict = "refuted"
-            ob.model = s.model() if r == z3.sat else None
+            ob.model = s.model()
+        else:
+            ob.verdict = "undecided"
+            ob.note = "the goal is false on this path, but the solver could not decide whether the path is feasible (%s)" % r
         ob.time = time.time() - t0
         return ob
     quick = min(timeout_ms, 1500)
